@@ -447,4 +447,14 @@ def fixwOp (len : Nat) (units : List Int) : Except Fault (List UInt8) := fixWStr
 /-- `String s; { SafeString ss(s, n); wchar_t* w = ss; … }` — `resize(3*n)`, `dataw()`, caller stores, `fixW()` -/
 def safeOp (n : Nat) (units : List Int) : Except Fault (List UInt8) := fixWString (sizeResize 0 (3 * n)) (3 * n) units
 
+/-- `String s(bytes); { const SafeString ss(s); const wchar_t* w = ss; … read-only use … }`:
+    the const conversion is `dataw()` (repaired code; it used to return the address of the String object),
+    the destructor runs `fixW()` over the scratch area `dataw()` filled and terminated.
+    Returned: what the caller sees through `w`, and the content after `fixW()`. -/
+def safeConstOp (s : List UInt8) : Option (List Nat × Except Fault (List UInt8)) :=
+  (dataw s).map fun units =>
+    let cap := capOf (sizeResize (sizeInit s.length) (datawNeed s.length))
+    (wcs units,
+     (fixWLoop (wideOffset s.length) cap (units.map Int.ofNat ++ [0]) 0 0 cap).map fun out => out.takeWhile (· != 0))
+
 end AslModel.Utf
